@@ -3,7 +3,16 @@ plain-data entities; shared by the C06–C11 pipeline checks.
 
 Results are cached under /verif/.cache/dtpipe keyed by a content hash of EVERY Python source of the working tree's
 libraries (+ the shims) and of the job list, so two checks that need the same run (C10 and C11 over the Specs
-inputs) pay for it once; any edit to the tree changes the key (nothing stale can be served)."""
+inputs) pay for it once; any edit to the tree changes the key (nothing stale can be served).  A run in which a query
+timed out or the public API raised is not cached.
+
+Swallowed exceptions.  `DateTimeModel.parse` wraps extraction + parsing in `try: … except Exception: pass`: when the merged
+extractor or the merged parser raises, the entities found so far (often none) are returned and nothing tells the caller.
+The workers therefore wrap `model.extractor.extract` and `model.parser.parse` (instance attributes, worker process only)
+with a recorder that notes the exception and re-raises it: per query we know whether the model's `except` swallowed
+something, at which stage, and which exception.  `run` keeps the records of its last call in `LAST_SWALLOWED` (aligned with
+the jobs: None or [stage, exception type, message]) and appends them to `SWALLOWED_LOG`; `swallowed_summary()` is what a
+check puts into its evidence (`swallowed_exceptions`: by exception type and culture)."""
 import hashlib
 import json
 import multiprocessing as mp
@@ -24,10 +33,46 @@ def _alarm(signum, frame):
     raise _Timeout()
 
 
+def instrument(model):
+    """Record what `DateTimeModel.parse` swallows: wrap the model's merged extractor / merged parser entry points so that an
+    exception leaving them is noted (outermost call only) and re-raised unchanged. -> the list records are appended to."""
+    rec = getattr(model, '_verif_swallowed', None)
+    if rec is not None:
+        return rec
+    rec = []
+    depth = [0]
+
+    def wrap(obj, name, stage):
+        orig = getattr(obj, name)
+
+        def wrapped(*a, **k):
+            depth[0] += 1
+            try:
+                return orig(*a, **k)
+            except Exception as e:
+                if depth[0] == 1:
+                    rec.append([stage, type(e).__name__, str(e)[:160]])
+                raise
+            finally:
+                depth[0] -= 1
+        setattr(obj, name, wrapped)
+
+    wrap(model.extractor, 'extract', 'extract')
+    wrap(model.parser, 'parse', 'parse')
+    model._verif_swallowed = rec
+    return rec
+
+
 def _work(chunk):
     out = []
     signal.signal(signal.SIGALRM, _alarm)
     for (culture, query, ref) in chunk:
+        rec = None
+        try:
+            rec = instrument(recog.get_model('DateTime', 'DateTimeModel', culture))
+            del rec[:]
+        except Exception:
+            rec = None
         try:
             signal.alarm(PER_QUERY_TIMEOUT)
             rs = recog.parse('DateTime', 'DateTimeModel', culture, query, ref)
@@ -38,13 +83,46 @@ def _work(chunk):
                 if r.resolution is not None:
                     vals = [dict(v) for v in (r.resolution.get('values') or [])]
                 ents.append({'start': r.start, 'end': r.end, 'text': r.text, 'type_name': r.type_name, 'values': vals})
-            out.append(ents)
+            out.append((ents, list(rec[0]) if rec else None))
         except _Timeout:
-            out.append('TIMEOUT')
+            out.append(('TIMEOUT', None))
         except Exception as e:
             signal.alarm(0)
-            out.append('EXC %s: %s' % (type(e).__name__, e))
+            out.append(('EXC %s: %s' % (type(e).__name__, e), None))
     return out
+
+
+LAST_SWALLOWED = []    # aligned with the jobs of the last `run`: None | [stage, exception type, message]
+SWALLOWED_LOG = []     # every record of this process: (culture, query, reference, stage, exception type, message)
+_LOGGED = set()
+QUERIES_RUN = [0]
+
+
+def _note(jobs, sw):
+    del LAST_SWALLOWED[:]
+    LAST_SWALLOWED.extend(sw)
+    for (c, q, r), x in zip(jobs, sw):
+        k = (c, q, str(r))
+        if k in _LOGGED:
+            continue
+        _LOGGED.add(k)
+        QUERIES_RUN[0] += 1
+        if x:
+            SWALLOWED_LOG.append((c, q, str(r), x[0], x[1], x[2]))
+
+
+def swallowed_summary(samples=8):
+    """For the evidence: how many distinct (culture, query, reference) of this process's runs had an exception swallowed by
+    `DateTimeModel.parse`, by exception type and culture, by stage, and a few examples."""
+    by = {}
+    stage = {}
+    for (c, q, r, st, et, msg) in SWALLOWED_LOG:
+        by['%s:%s' % (et, c)] = by.get('%s:%s' % (et, c), 0) + 1
+        stage[st] = stage.get(st, 0) + 1
+    return {'distinct_queries_run': QUERIES_RUN[0], 'queries_with_swallowed_exception': len(SWALLOWED_LOG),
+            'by_exception_type_and_culture': dict(sorted(by.items())), 'by_stage': stage,
+            'examples': [{'culture': c, 'query': q, 'reference': r, 'stage': st, 'exception': '%s: %s' % (et, msg)}
+                         for (c, q, r, st, et, msg) in SWALLOWED_LOG[:samples]]}
 
 
 _TREE_HASH = None
@@ -84,7 +162,10 @@ def run(jobs, procs=None, cache=True):
         if os.path.exists(cpath):
             try:
                 with open(cpath, encoding='utf-8') as f:
-                    return json.load(f)
+                    hit = json.load(f)
+                if isinstance(hit, dict) and len(hit.get('out', ())) == len(jobs) == len(hit.get('swallowed', ())):
+                    _note(jobs, hit['swallowed'])
+                    return hit['out']
             except Exception:
                 pass
     # group by culture so each worker compiles few cultures; interleave for balance
@@ -95,10 +176,12 @@ def run(jobs, procs=None, cache=True):
     with mp.Pool(procs) as pool:
         res = pool.map(_work, chunks)
     out = [None] * len(jobs)
+    sw = [None] * len(jobs)
     for idx, r in zip(chunks_idx, res):
         for i, x in zip(idx, r):
-            out[i] = x
-    if cpath:
+            out[i], sw[i] = x
+    _note(jobs, sw)
+    if cpath and not any(isinstance(x, str) for x in out):    # a TIMEOUT / EXC run is never served again
         # keep the cache small: drop entries older than a day
         try:
             import time
@@ -108,7 +191,7 @@ def run(jobs, procs=None, cache=True):
                     os.remove(fp)
             tmp = cpath + '.tmp%d' % os.getpid()
             with open(tmp, 'w', encoding='utf-8') as f:
-                json.dump(out, f, ensure_ascii=False)
+                json.dump({'out': out, 'swallowed': sw}, f, ensure_ascii=False)
             os.replace(tmp, cpath)
         except Exception:
             pass
